@@ -139,6 +139,11 @@ def main():
                    "build_log_tail": stage["log"][-3000:] if broken_obl else ""}
         path = write_replay(prop, payload)
         replay_paths.append(path)
+        for o in broken_obl[:3]:
+            print(f"  broken obligation: {o['name']}: {o['detail'][:200]}")
+        for s_ in broken_suites:
+            for d in s_["disagreements"][:3]:
+                print(f"  disagreement in {s_['name']}: {str(d.get('why'))[:400]}")
         print(f"VIOLATION property={prop} replay={path} no-failing-input-found")
         rc = 1
 
